@@ -53,7 +53,7 @@ func c12Check(p batchParams, out *batchObs) func(res *vrt.Result) *explore.Findi
 			for j, a := range as {
 				// sent to the region owning the key (the executor answers NSRE otherwise, which is
 				// legitimate only for a scripted 'not serving' outcome)
-				if a.Misrouted() && !strings.Contains(p.scripts[i], "N") && p.event != "droptable" && !(p.pre == "merge" && j == 0) {
+				if a.Misrouted() && !strings.Contains(p.scripts[i], "N") && p.event != "droptable" && !(p.pre == "merge" && j == 0) && p.pre != "merge-half" {
 					return &explore.Finding{Class: "call-sent-to-wrong-region-or-server", Msg: fmt.Sprintf("call %d attempt %d refused as not serving%s", i, j, show())}
 				}
 				if j > 0 {
@@ -77,6 +77,26 @@ func c12Check(p batchParams, out *batchObs) func(res *vrt.Result) *explore.Findi
 							}
 						}
 					}
+				}
+			}
+		}
+		// two calls for the same row are executed in batch order (the later write wins)
+		for i := range p.keys {
+			for j := i + 1; j < len(p.keys); j++ {
+				if p.keys[i] != p.keys[j] || out.res == nil || out.res[i].Error != nil || out.res[j].Error != nil {
+					continue
+				}
+				pi, pj := -1, -1
+				for n, e := range cl.Log {
+					if e.Ident == any(out.calls[i]) {
+						pi = n
+					}
+					if e.Ident == any(out.calls[j]) {
+						pj = n
+					}
+				}
+				if pi >= 0 && pj >= 0 && pi > pj {
+					return &explore.Finding{Class: "same-row-calls-executed-out-of-batch-order", Msg: fmt.Sprintf("calls %d and %d (row %q) both succeeded but were executed in the opposite order%s", i, j, p.keys[i], show())}
 				}
 			}
 		}
@@ -238,6 +258,22 @@ func c12Units(thorough bool) []*explore.Unit {
 			p := batchParams{layout: layout, keys: keys, ownCtx: -1, pre: "merge"}
 			for i := range keys {
 				p.kinds = append(p.kinds, []string{"put", "inc", "get"}[i%3])
+				p.scripts = append(p.scripts, "")
+			}
+			out := &batchObs{}
+			units = append(units, &explore.Unit{Name: p.String(), Bound: 0, Opt: vrt.Options{MaxSteps: 60000},
+				Body: batchBody(p, out), Check: c12Check(p, out), Sig: batchSig(out)})
+		}
+	}
+	// only the first region is known to the client when the two are merged: the lookup for a
+	// later call of the batch replaces (and marks dead) the region an earlier call was given
+	// from the cache in the same pass; two calls for the same row must still be executed in
+	// batch order
+	for _, layout := range []string{"spread", "coloc"} {
+		for _, keys := range [][]string{{"a", "x", "a"}, {"a", "a", "x", "a"}, {"b", "x", "a", "b"}} {
+			p := batchParams{layout: layout, keys: keys, ownCtx: -1, pre: "merge-half"}
+			for range keys {
+				p.kinds = append(p.kinds, "put")
 				p.scripts = append(p.scripts, "")
 			}
 			out := &batchObs{}
